@@ -8,7 +8,7 @@ Import ListNotations.
 From CXV Require Import Gen.Blocks Parse.BlocksSM Parse.BlocksSpec Parse.BlocksThms.
 From CXV Require Gen.PinsC03.
 From CXV Require Import Gen.ParserTables Parse.Balanced Parse.BalancedThms Parse.Specs Parse.ClassEnum Parse.CtorDtor.
-From CXV Require Import Gen.TokTy Parse.Declarator Parse.DeclSpec Parse.DeclThms Parse.BaseClause Parse.EnumList Parse.Specs Parse.Init Parse.Members Parse.MethodTail Parse.DeclStmt Parse.MemberStmt Parse.OpName Parse.FinishClass.
+From CXV Require Import Gen.TokTy Parse.Declarator Parse.DeclSpec Parse.DeclThms Parse.BaseClause Parse.EnumList Parse.Specs Parse.Init Parse.Members Parse.MethodTail Parse.DeclStmt Parse.MemberStmt Parse.OpName Parse.FinishClass Parse.ConvOp.
 Open Scope N_scope.
 
 (* the access delivered with a member equals the backward-scan specification
@@ -223,6 +223,23 @@ Theorem anonymous_id_shared_by_its_declarators : forall bn c v items last le,
          (map (ditem_entry (TBase bn c v)) items ++ [last_entry (TBase bn c v) last le]).
 Proof. exact finish_declarators_share_the_type. Qed.
 
+(* Conversion operators in a class body: `spec* operator cv* T cv* <pointer / reference operators> ( params ) quals <end>`
+   is one method named `operator` whose return type is the conversion type (any pointer / reference nest over the named
+   type), with the specifier flags written in front of `operator` (explicit, constexpr, virtual, inline ...), the
+   qualifier set written behind the parameter list, and the ending written (';', `= 0` / `= delete` / `= default`, a body) *)
+Theorem conversion_operator_decodes_partial : forall pre cpre cpost b ls ps va quals e rest,
+  forallb spec_kw pre = true -> has T_extern pre = false ->
+  forallb (fun k => (k =? T_const) || (k =? T_volatile)) (cpre ++ cpost) = true ->
+  all_pfx ls = true -> legalL KB ls = true ->
+  layer_ok (LFn ps va) -> Forall mq_ok quals ->
+  (match e with MeBody soup => bal tk kty T_LIT_123 T_LIT_125 soup | MeCtor _ _ => False | _ => True end) ->
+  let cm := apply_kws (cpre ++ cpost) mods0 in
+  let t := wrap (TBase b (m_const cm) (m_volatile cm)) ls in
+  ev (fun f => conv_stmt f (kw_toks pre ++ ktok T_operator :: kw_toks cpre ++ nm_tok b :: kw_toks cpost ++ P ls [] ++
+                            ktok LP :: params_toks ps va ++ ktok RP :: flat_map mq_toks quals ++ mlast_toks e ++ rest))
+     (DOk (mkConv (apply_kws pre mods0) t ps va (apply_end e (quals_of quals)), rest)).
+Proof. exact conv_stmt_roundtrip. Qed.
+
 (* the functions the hand-written models above mirror (_parse_class_decl, _parse_class_decl_base_clause, _maybe_parse_class_enum_decl, _parse_decl, _parse_method_end, _discard_ctor_initializer, _parse_field, _parse_bitfield, _parse_declarations, _parse_function, _parse_pqname_name_operator, _parse_operator_conversion and _finish_class_or_enum) are, token for
    token of their syntax trees, the ones the models were written against: the
    translator recomputes the digests from the live code and produces Gen/PinsC03.v
@@ -277,6 +294,7 @@ Print Assumptions typedef_of_class_declarators_decode_partial.
 Print Assumptions trailing_member_declarators_decode_partial.
 Print Assumptions definition_closed_by_semicolon.
 Print Assumptions anonymous_id_shared_by_its_declarators.
+Print Assumptions conversion_operator_decodes_partial.
 
 (* `static Foo * f1 : 3 = 1, & m2 ( Bar a ) const noexcept = 0 ;` and `explicit Cls ( ) : a ( 1 ) { }` in class Cls (ids 5 / 6) *)
 Example c03_member_stmt_run :
